@@ -3,6 +3,7 @@ CONSTANTS
   K = 2
   Kinds = {"view"}
   Emit = FALSE
+  RepLevel = 2
   Bug = "legacy_drops_conflict"
 INVARIANTS InvView
 CHECK_DEADLOCK FALSE
